@@ -114,6 +114,24 @@ def generate():
             raise Unsupported("!UTC suffix handling changed: %r" % (consts,))
         if consts.get("in") != ["%", "SSSSSSS"]:
             raise Unsupported("order of the '%%' / 'SSSSSSS' tests changed: %r" % (consts.get("in"),))
+        # order of the steps of _compile_format: the fast-path test must come first (before the suffix is cut)
+        order = []
+        for st in fn.body:
+            src = ast.unparse(st)
+            if isinstance(st, ast.If) and src.startswith("if spec == "):
+                order.append("fast")
+            elif src.startswith("is_utc = spec.endswith"):
+                order.append("utc")
+            elif isinstance(st, ast.If) and src.startswith("if is_utc"):
+                order.append("cut")
+            elif isinstance(st, ast.If) and src.startswith("if not spec"):
+                order.append("iso")
+            elif isinstance(st, ast.If) and "'%' in spec" in src:
+                order.append("percent")
+            elif isinstance(st, ast.If) and "'SSSSSSS' in spec" in src:
+                order.append("sevenS")
+        body += "/-- order of the steps of `_compile_format` -/\n"
+        body += "def compileSteps : List String := [%s]\n" % ", ".join(lean_str(x) for x in order)
         body += "def fastPathSpec : Py.Str := %s\n" % lean_chars(consts["fast"])
         body += "def utcSuffix : Py.Str := %s\n" % lean_chars(consts["suffix"])
         body += "def isoSpec : Py.Str := %s\n" % lean_chars(consts["iso"])
